@@ -89,6 +89,54 @@ CLAIMED = {
         design_ref="DESIGN.md §2 C12",
         engine="p-fs",
     ),
+    "C03": dict(
+        category="exploration",
+        text="Per-run pool of 400 honest chains (1-6 epochs, 1-3 certificates per epoch, constant or rotating per-epoch signer worlds with real STM keys, own genesis key) served by an untrusted provider that applies 0-3 generated tamper operations and owns an adversary signer world and genesis key: any field altered with/without re-hash and with/without re-synchronised signed message, certificates re-signed by the adversary / by another epoch's honest world / under the honest parameters, whole forks re-signed consistently (with the honest parent served under an altered commitment, a fake epoch boundary, re-hashed or not), links re-targeted (same / previous / next / older epoch, genesis), drop, duplicate, serve-for-wrong-hash, serve-ancestor-for-parent, self-loop, genesis under another key, standard-as-genesis and genesis-as-standard. 8000 single verifications (mithril_common verify_certificate_chain and the client's verify_chain without cache) and 3000 client histories of 2-4 verify_chain calls sharing one real verifier cache while the provider changes its answers in between. Oracle: a literal transcription of the statement (bounded walk over everything the provider ever served; hash, signed message, epoch part, multi-signature under own key and parameters, the two link rules, genesis under the configured key via dalek directly); violation = accepted and the reference finds a failing clause. Found three genuine defects (repaired); 12 of 13 mutants caught, the 13th is equivalent on the repaired tree.",
+        note="Trusted: SHA-256 / certificate hash (C04), STM aggregate verification (C01), Ed25519 verify_strict, key codecs (C05). Structural adversary with its own keys; cannot sign with honest keys. Provider and cache calls are budgeted so that a looping verifier ends as 'not accepted' (a hang would be exit 2).",
+        technique="property-based testing: tamper grammar over honest chains served by an adversarial provider + reference chain validator; stateful cache histories (proptest)",
+        design_ref="DESIGN.md §2 C03",
+        engine="p-common",
+    ),
+    "C04": dict(
+        category="exploration",
+        text="120k certificates generated field by field (genesis / standard, every signed entity type with boundary beacons, metadata strings incl. empty / shared prefixes / escapes, 0-6 signers, timestamps over the whole i64-nanosecond range, phi_f incl. every fixed-point rounding tie and its neighbours, real keys and signatures from a per-run pool of honest chains) each with ONE generated change of one field: the two hashes must differ exactly when the harness-side canonical forms differ (phi_f compared at U8F24). 60k protocol-message pairs over the honest value grammar related by boundary moves, drop / add / swap / re-key of parts: different maps => different digests. 40k wire round trips Certificate -> CertificateMessage -> JSON text -> re-serialised text (field order, whitespace, number formatting, escapes, optional fields absent / null) -> Certificate: stored and recomputed hash, signed message and the verdicts of the real verifier are preserved. Found one genuine defect (repaired: float round trip); the two documented discriminant collisions are open known findings with witnesses; 8 of 8 hash mutants caught.",
+        note="Trusted: SHA-256, hex / JSON key codecs (C05), STM / Ed25519 verification. ancillary prover/verifier data are uninhabited without the future_snark feature (absent vs null is exercised on the wire). Protocol message values inside the honest grammar only.",
+        technique="property-based testing: single-field perturbation (injectivity), boundary-move pairs, JSON re-serialisation round trips (proptest)",
+        design_ref="DESIGN.md §2 C04",
+        engine="p-common",
+    ),
+    "C13": dict(
+        category="exploration",
+        text="1000 generated histories per quick run (<= 25 operations: extend the chain, switch to a fork chosen by selector - shallow, anywhere, below the highest stored block, at a block-range boundary +-1, at / before the first stored block - import up to a target derived like the callers do (both signing configurations, preloader, tip, same again) optionally with a chain switch DURING the import and / or a store failure at the j-th mutating call followed by a restart, restart) against the real CardanoChainDataImporter + CardanoBlockScanner / ChainReaderBlockStreamer + the signer's sqlite repository on disk + both signable builders, fed by SimNode, a chain-sync follower model validated first against the repository's FakeChainReader scenarios. Oracle after every successful import: stored blocks, transactions and both block-range-root tables equal (1) an independent harness recomputation from the model chain and (2) a fresh database that imported the canonical chain once; Merkle roots of both signable builders at the target and at earlier aligned beacons equal the fresh ones. Found two genuine defects (repaired) and two that are open known findings with witnesses.",
+        note="Trusted: MKTree / MKMap for the root recomputation; sqlite transaction atomicity; chain switches never shorten the chain; with pruning no switch deeper than the blocks kept. Targets are non-decreasing and <= tip (callers' rule); the two open findings are steered around except through the `Same` selector.",
+        technique="model-based stateful property-based testing: generated roll-back / restart / fault histories on the real importer, chain-sync environment model, from-scratch differential oracle (proptest)",
+        design_ref="DESIGN.md §2 C13",
+        engine="p-chain",
+    ),
+    "C14": dict(
+        category="exploration",
+        text="The real aggregator (DependenciesBuilder as the repository's integration tests assemble it: real state machine, certifier, buffered certifier, epoch service, signer registration, multi-signer, sqlite on disk, HTTP router, message-queue processor; chain / immutable / block doubles of the repository) driven by 4 scripted + 400 generated histories per quick run: deployment start, 2-4 epoch blocks with registration all / some / nobody / rotated keys / late / ahead, signing rounds by subsets over HTTP or the queue for current, superseded, not-yet-open (buffered) or unknown entities with valid, duplicate, wrong-message, next- or previous-epoch-key signatures, expiry, restarts, multi-epoch jumps, operator re-genesis. After EVERY cycle and operation: I1 every new certificate and its chain verify with a fresh mithril_common verifier and with the mithril-client verifier on the HTTP view; I2 aggregate key, next key, parameters, signed message, epoch part equal what the harness derives from ITS OWN registration history with mithril-stm, the multi-signature verifies, listed signers and lottery indices come from valid submissions the harness made (quorum reached); I3 parent = first certificate of its epoch / of the previous one by the harness' insertion record; I4 no entity certified twice; I5 no certificate after a skipped epoch until re-genesis; I6 an expired message is never sealed.",
+        note="Model of epoch offsets hard-coded from the protocol description and validated on scripted honest histories; signer stakes and parameters constant within a history; the artifact task always finishes before the next event (its interruption is C15); interleavings at the granularity of harness operations.",
+        technique="stateful property-based testing: generated event histories on the real aggregator, invariants checked after every step against an independent registration / key model (proptest)",
+        design_ref="DESIGN.md §2 C14",
+        engine="p-aggregator",
+    ),
+    "C15": dict(
+        category="fault_enumeration",
+        text="Ten named crash points (cfg-guarded hooks in /repo: before / after the certificate insert, after the open-message update, before / after artifact computation, after the signed-entity insert, after the open message is created, after each buffered signature is handed over, before / after the buffer is emptied). An armed point parks the running future; the harness drops the aggregator where it stands, shuts its tokio runtime down (all spawned tasks die, no error handling or shutdown code runs) and boots a new aggregator on the same directories. Quick: one scripted and one generated history (deployment start + 2-3 epoch blocks with partial rounds, early = buffered signatures, clean restarts, expiry, both inlets) are stopped at EVERY (crash point, occurrence) their crash-free twin executes, plus two-stops-in-a-row variants, plus 128 sampled (history, point, occurrence, second stop, 0/1/3 cycles after restart) cases; thorough: 62 histories enumerated + 6000 sampled. Oracle right after the restart, after the healing cycles, after a recovery round and at the end of the history + a healthy three-epoch epilogue: O1 every stored certificate verifies and reaches genesis (mithril_common verifier on all, mithril-client verifier on the newest and on re-certified ones), O2 no signed entity has two artifacts, O3 every artifact references a stored certificate of exactly that entity, O4 progress as a differential with the crash-free twin under sign-once signers (entities of the final time point certified / with artifact in the twin must be so in the crashed run; not blocked by an epoch gap unless the twin is). Found one genuine defect (repaired); 3 of 3 mutants caught.",
+        note="A stop is modelled at the ten hook points only (between sqlite statements, each of which is durable once executed); OS-level torn writes are out of scope. Signers never repeat an acknowledged submission. Progress is bounded by the fixed epilogue and judged relative to the twin only.",
+        technique="fault injection by enumeration of (crash point, occurrence) over generated histories on the real aggregator + sampled property-based cases; post-restart invariants and twin differential (proptest + cfg-guarded hooks)",
+        design_ref="DESIGN.md §2 C15",
+        engine="p-aggregator",
+    ),
+    "C16": dict(
+        category="exploration",
+        text="Rounds on the real aggregator (same system as C14) with 3-6 signers, a generated honest subset and 6-16 operations; the others submit everything a peer can: {own, other registered, unregistered name} x {own signature, copy of another party's} x {valid, wrong message, next / previous epoch key, duplicate} x {matching, truncated, extended index list} x {HTTP route, message-queue processor} x {open message exists, not yet = buffer}, in generated order relative to the honest submissions; plus the enumerated label x signature x inlet product on a 3-signer system. After every step every stored row is re-verified with mithril-stm against the key the LABELLED party registered (harness model); an honest party's stored row must stay its own signature; one signature under two names, a replaced honest row, a certificate listing a party without a valid signature of its own key, a blocked quorum although honest signatures suffice, and a panic of a request handler or of the state machine are violations. Found one genuine defect with four faces (repaired); the mutant that removes the repair is caught under all four keys.",
+        note="The message queue authenticates the sender (party id = sender) and rebuilds the index list, as SignatureConsumerDmq does; stakes and parameters constant over a history.",
+        technique="stateful property-based testing: generated + enumerated (label, signature, inlet, order) submissions on the real aggregator, party -> key attribution model (proptest)",
+        design_ref="DESIGN.md §2 C16",
+        engine="p-aggregator",
+    ),
     "C17": dict(
         category="exploration",
         text="Exhaustive walk of every (security parameter <= 40, step <= 40, tip <= 200) triple for both entity kinds plus 60k generated (tip, tip+delta, k, step, epoch) cases at the numeric boundaries (0, 1, block-range length +-1, 2^32+-1, 2^62, u64::MAX tips); each clause of the statement (margin, monotone, whole steps, complete block range, purity across independently built / JSON round-tripped configs) is an executable oracle. Arithmetic on a three-parameter integer function is exactly where a small exhaustive box plus boundary sampling is decisive.",
@@ -160,9 +208,9 @@ def main():
         "setup_cmd": "./setup.sh",
         "hooks": {
             "guard": "--cfg mithril_verif",
-            "enable": "harness/.cargo/config.toml passes rustflags = [\"--cfg\", \"mithril_verif\"] to every crate built for the checks (path dependencies into /repo, so the current working tree is rebuilt)",
+            "enable": "harness/.cargo/config.toml passes rustflags = [\"--cfg\", \"mithril_verif\"] to every crate built for the checks (path dependencies into /repo, so the current working tree is rebuilt); only C15 uses hooks: mithril-aggregator/src/verif_hooks.rs (thread-local named crash points) and its call sites in certifier_service.rs, signed_entity.rs, buffered_certifier.rs",
             "baseline_off_cmd": "cd /repo && cargo nextest run --workspace --no-fail-fast --test-threads 8 --offline || cargo test --workspace --no-fail-fast --offline",
-            "source_commits": [],
+            "source_commits": ["25572b6a3"],
             "add_only": True,
         },
         "engines": [
